@@ -23,6 +23,11 @@ PURE_GETTERS = {"to_be_bytes", "to_le_bytes", "to_bits", "to_bytes", "size", "is
                 "max_degree", "constraints", "unwrap"}
 
 
+# ASSUMED values of dependency constants (dusk-bls12_381's `impl PrimeField for BlsScalar`: NUM_BITS = 255, CAPACITY = NUM_BITS - 1;
+# integer widths of the 64-bit target)
+DEP_CONSTS = {"BlsScalar::CAPACITY": 254, "BlsScalar::NUM_BITS": 255, "usize::BITS": 64, "u64::BITS": 64, "u32::BITS": 32}
+
+
 # integer helper methods: uninterpreted binary functions when an operand is symbolic
 PURE_BINARY = {"saturating_sub", "saturating_add", "wrapping_sub", "wrapping_add", "checked_add", "checked_sub", "checked_mul",
                "unwrap_or", "pow"}
@@ -681,6 +686,8 @@ class Interp:
             return self.consts[last2]
         if p in self.contracts or last2 in self.contracts:
             return VOpaque("fn:" + last2)      # a function named as a value (e.g. passed to `.map`)
+        if last2 in DEP_CONSTS:
+            return DEP_CONSTS[last2]           # constants of the dependencies whose values are fixed by their source (listed)
         if len(segs) == 2 and segs[1].isupper() and segs[0] not in ("Self",):
             return Sym(last2)                  # an associated constant of another type (e.g. u64::SIZE): a symbol
         ENUMS = ("Error", "PlonkVersion", "Selector", "WiredWitness")
@@ -2249,6 +2256,14 @@ def run_unit(root, unit, contracts, seed=0, perturb=None):
                 # the code side carries a havocked (unknown) value where the contract is exact: unknown, not a violation
                 und = True
                 detail = f"code value depends on statements outside the fragment (havoc {sorted(_havoc_names(a) - _havoc_names(b))}): {detail}"
+            if not ok and pcs and not und:
+                # a path whose condition compares COMPILE-TIME CONSTANTS of unknown value (`Type::CONST` of a dependency) may be
+                # infeasible: nothing observed on it is evidence about the code
+                import re as _re
+                consts_in_pc = [x for c_, _t in pcs for x in _value_vars(c_) if _re.fullmatch(r"[A-Za-z_]\w*::[A-Z][A-Z0-9_]*", x)]
+                if consts_in_pc:
+                    und = True
+                    detail = f"on the path [{pc_txt}] (feasibility depends on the constant(s) {sorted(set(consts_in_pc))} whose value is not known to the checker): {detail}"
             if not ok and pcs and not und:
                 # the path condition may make the two sides coincide: specialise for the predicates we understand
                 rules, used = _path_rules(pcs)
